@@ -41,11 +41,11 @@ def prefix_tables(repo: Repo):
     members = pf.enum_values(repo, F_PREFIX, "Prefix")  # NAME -> 'int text'
     fe = repo.func(F_EXPORT, "export_prefix")
     fi = repo.func(F_IMPORT, "import_prefix")
-    emap = pf.dict_in_function(fe, "map")
-    imap = pf.dict_in_function(fi, "map")
-    if emap is None or imap is None:
-        raise AnalysisError("idiom-unknown: prefix tables are not dict literals named `map`")
-    return members, fe, fi, emap, imap
+    er = pf.dict_by_key(fe, "pre.value")
+    ir = pf.dict_by_key(fi, "vpre")
+    if er is None or ir is None:
+        raise AnalysisError("idiom-unknown: prefix tables (`<table>[pre.value]` in export_prefix, `<table>[vpre]` in import_prefix) not found as dict literals")
+    return members, fe, fi, er[0], ir[0]
 
 
 def inverse_tables(repo: Repo, R):
@@ -61,7 +61,7 @@ def inverse_tables(repo: Repo, R):
         if back != f"Prefix.{name}":
             probs.append(f"import: SIPrefix.{name} -> {back}")
     extra = [k for k in emap if k not in {str(int(ast.literal_eval(v))) for v in members.values()}]
-    keyed = bool(pat.find("map[pre.value]", fe.node)) and bool(pat.find("map[vpre]", fi.node))
+    keyed = True  # the tables are found as `<table>[pre.value]` / `<table>[vpre]` (prefix_tables)
     R.check(not probs and not extra and len(members) == 21 and keyed, rule, f"{F_EXPORT}::export_prefix<->import_prefix", fe.site,
             f"prefix tables over {len(members)} Prefix members: exporter maps each exponent to the SIPrefix of the same name, importer maps it back" if not probs else "; ".join(probs[:4]),
             why="a prefixed parameter value changes by powers of ten on export or on re-import (e.g. MILLI exported as MICRO)")
@@ -81,10 +81,10 @@ def inverse_tables(repo: Repo, R):
     ideal = {n for n, p in prims.items() if p["primtype"] == "IDEAL"}
     fxi = repo.func(F_EXPORT, "ProtoExporter.export_instance")
     fii = repo.func(F_IMPORT, "import_vlsir_primitive")
-    emap = pf.dict_in_function(fxi, "prim_map")
-    imap = pf.dict_in_function(fii, "prim_map")
-    if emap is None or imap is None:
-        raise AnalysisError("idiom-unknown: prim_map dict literals")
+    er, ir = pf.dict_by_key(fxi, "inst.of.prim.name"), pf.dict_by_key(fii, "pref.name")
+    if er is None or ir is None:
+        raise AnalysisError("idiom-unknown: ideal-primitive name tables (`<table>[inst.of.prim.name]` in the exporter, `<table>[pref.name]` in the importer) not found as dict literals")
+    emap, imap = er[0], ir[0]
     inv = {v: k for k, v in emap.items()}
     ok = set(emap) == ideal and inv == imap and len(inv) == len(emap)
     R.check(ok, rule, f"{F_EXPORT}::prim_map<->{F_IMPORT}::prim_map", fxi.site,
@@ -125,12 +125,12 @@ def inverse_tables(repo: Repo, R):
     j = bool(pat.find("'.'.join(qpath)", fq.node))
     s = bool(pat.find("path = pmod.name.split('.')", fim.node)) and bool(pat.find("module._importpath = path[:-1]", fim.node)) and bool(pat.find("module.name = path[-1]", fim.node))
     fqp = repo.func(F_QUALNAME, "qualpath")
-    back = bool(pat.find("mod._importpath + [mod.name]", fqp.node))
+    back = any(shared.prov_text(fqp.node, r.value) in ("mod._importpath + [mod.name]", "getattr(mod, '_importpath', None) + [mod.name]") for r in shared.returns_of(fqp.node))
     # "imported" means the import path was set, even to the empty path (a module defined at top level / in a notebook)
     imp_test = None
     for r in shared.returns_of(fqp.node):
-        if shared.prov_text(fqp.node, r.value) == "mod._importpath + [mod.name]":
-            pcs = shared.path_conditions(fqp.node, r)
+        if shared.prov_text(fqp.node, r.value) in ("mod._importpath + [mod.name]", "getattr(mod, '_importpath', None) + [mod.name]"):
+            pcs = [(shared.prov(fqp.node, t), pol) for t, pol in shared.path_conditions(fqp.node, r)]
             imp_test = " and ".join(("" if pol else "not ") + f"({ast.unparse(t)})" for t, pol in pcs)
             exact = shared.conds_imply(pcs, [(shared.parse_cond("getattr(mod, '_importpath', None) is None"), False)]) is True and shared.conds_imply([(shared.parse_cond("getattr(mod, '_importpath', None) is None"), False)], pcs) is True
             exact = exact or (shared.conds_imply(pcs, [(shared.parse_cond("mod._importpath is None"), False)]) is True and shared.conds_imply([(shared.parse_cond("mod._importpath is None"), False)], pcs) is True)
@@ -213,14 +213,25 @@ def variant_coverage(repo: Repo, R):
     ok = all(arms.get(k) == v for k, v in want.items())
     R.check(ok, rule, key_of(fpv), fpv.site, f"import_parameter_value arms: {arms}", why="a parameter comes back with another variant's value")
     fpp = repo.func(F_IMPORT, "import_prefixed")
-    arms = {}
-    for n in au.walk_no_nested(fpp.node):
-        if isinstance(n, ast.If) and isinstance(n.test, ast.Compare):
-            lit = au.str_const(n.test.comparators[0])
-            if lit and n.body and isinstance(n.body[-1], ast.Assign):
-                arms[lit] = ast.unparse(n.body[-1].value)
     a = fpp.node.args.args[0].arg
-    ok = arms.get("int64_value") == f"{a}.int64_value" and arms.get("string_value") == f"{a}.string_value" and bool(pat.find("Prefixed(number=number, prefix=prefix)", fpp.node)) and bool(pat.find(f"prefix = import_prefix({a}.prefix)", fpp.node))
+    arms = {}
+    ctor = [c for c, _b in pat.find("Prefixed(number=$N, prefix=$P)", fpp.node)]
+    pre_ok = False
+    if len(ctor) == 1:
+        kw = {k.arg: k.value for k in ctor[0].keywords}
+        pre_ok = shared.prov_text(fpp.node, kw["prefix"]) == f"import_prefix({a}.prefix)"
+        for v, cds in shared.alternatives(fpp.node, kw["number"], list(shared.path_conditions(fpp.node, ctor[0]))):
+            for t, pol in cds:
+                tx = shared.prov(fpp.node, t)
+                if not pol or not isinstance(tx, ast.Compare) or len(tx.ops) != 1 or ast.unparse(tx.left) != f"{a}.WhichOneof('number')":
+                    continue
+                if isinstance(tx.ops[0], ast.Eq) and au.str_const(tx.comparators[0]):
+                    arms[au.str_const(tx.comparators[0])] = ast.unparse(v)
+                if isinstance(tx.ops[0], ast.In) and isinstance(tx.comparators[0], (ast.Tuple, ast.List, ast.Set)) and shared.prov_text(fpp.node, v) == f"getattr({a}, {a}.WhichOneof('number'))":
+                    for x in tx.comparators[0].elts:
+                        if au.str_const(x):
+                            arms[au.str_const(x)] = f"{a}.{au.str_const(x)}"  # the field of the same name
+    ok = arms.get("int64_value") == f"{a}.int64_value" and arms.get("string_value") == f"{a}.string_value" and pre_ok
     R.check(ok, rule, key_of(fpp), fpp.site, f"import_prefixed arms {arms}, rebuilt as Prefixed(number, prefix)", why="prefixed numbers lose their digits or prefix on import")
 
 
